@@ -267,13 +267,22 @@ class Evaluator:
     def e_Tuple(self, e):
         return ("tuple", tuple(self.expr(x) for x in e.elts))
 
+    def _uid(self):
+        self.fresh_counter[0] += 1
+        return ("id", self.fresh_counter[0])
+
     def e_List(self, e):
+        if not e.elts:
+            # an empty display is a fresh mutable accumulator: keep distinct ones apart
+            return ("list", (), self._uid())
         return ("list", tuple(self.expr(x) for x in e.elts))
 
     def e_Set(self, e):
         return ("set", tuple(self.expr(x) for x in e.elts))
 
     def e_Dict(self, e):
+        if not e.keys:
+            return ("dict", (), self._uid())
         items = []
         for k, v in zip(e.keys, e.values):
             if k is None:
@@ -389,6 +398,9 @@ class Evaluator:
             else:
                 kwargs.append((kw.arg, self.expr(kw.value)))
         t = ("call", f, args, tuple(sorted(kwargs)))
+        if not args and not kwargs and f in (("n", "dict"), ("n", "list"), ("n", "set")):
+            t = (f[1], (), self._uid()) if f[1] != "set" else ("set", (), self._uid())
+            return t
         if self.fresh is not None and self.fresh(t):
             self.fresh_counter[0] += 1
             t = ("fresh", self.fresh_counter[0], t)
@@ -921,9 +933,11 @@ def pretty(t, depth: int = 0) -> str:
     if tag == "bool":
         return "(" + f" {t[1]} ".join(p(x) for x in t[2]) + ")"
     if tag in ("tuple", "list", "set"):
-        return f"{tag}(" + ", ".join(p(x) for x in t[1]) + ")"
+        return f"{tag}(" + ", ".join(p(x) for x in t[1]) + ")" + (
+            f"#{t[2][1]}" if len(t) > 2 else "")
     if tag == "dict":
-        return "{" + ", ".join(f"{p(k)}: {p(v)}" for k, v in t[1]) + "}"
+        return "{" + ", ".join(f"{p(k)}: {p(v)}" for k, v in t[1]) + "}" + (
+            f"#{t[2][1]}" if len(t) > 2 else "")
     if tag == "lambda":
         return f"(lambda {', '.join(t[1])}: {p(t[2])})"
     if tag in ("phi", "ifexp"):
